@@ -77,6 +77,20 @@ func (g *FullGen) S(d int, asOperand bool) *Node {
 			return x
 		}
 	}
+	if g.Family == FJSON && !g.NoJSON && r.Chance(1, 3) {
+		// members of every JSON kind: text, number, nested object, array, array of objects
+		n := IndexS(Call("json", Value()), g.pick([]string{"x", "y", "list", "o", "o", "nope"}))
+		switch r.Intn(4) {
+		case 0:
+			n = IndexS(n, g.pick([]string{"y", "o", "z"}))
+		case 1:
+			n = IndexI(n, int64(r.Range(0, 2)))
+			if r.Bool() {
+				n = IndexS(n, "a")
+			}
+		}
+		return n
+	}
 	if d <= 0 {
 		switch r.Intn(3) {
 		case 0:
